@@ -155,7 +155,7 @@ fn check_pipe(obs: &mut Obs, pipe: &Pipe) {
   // sources carrying a closure run it exactly once per subscription
   fn calls(s: &Src) -> usize {
     match s {
-      Src::OfFn(_) | Src::Start(_) | Src::Create(_) => 1,
+      Src::OfFn(_) | Src::Start(_) | Src::Create(_) | Src::IntoIter(_) => 1,
       Src::FromFuture(_) | Src::FromFutureResult(_) => 1,
       Src::Defer(i) => 1 + calls(i),
       _ => 0,
